@@ -125,6 +125,12 @@ func TestC06_Expr(t *testing.T) {
 			placement := gen.MarkPlacement(rapid.IntRange(0, 2).Draw(t, "placement"))
 			v1 := sc.Vals[secret]
 			v2 := gen.VaryContent(t, v1, placement)
+			if placement == gen.MarkTop && !v1.IsNull() && rapid.IntRange(0, 4).Draw(t, "nullflip") == 0 {
+				// whether the secret is set at all is secret content too (it decides `x == null`,
+				// coalescing, and the 0-or-1 element result of a splat over a non-collection)
+				v2 = cty.NullVal(v1.Type())
+				c.Class("secret_null_in_one_run")
+			}
 			ctx1, ctx2 := evalCtx(sc), evalCtx(sc)
 			ctx1.Variables[secret] = gen.ApplyMark(v1, secretMark, placement)
 			ctx2.Variables[secret] = gen.ApplyMark(v2, secretMark, placement)
